@@ -384,3 +384,67 @@ Proof.
   - constructor; [exact S | constructor].
   - cbn [wire map concat]. rewrite app_nil_r. exact E.
 Qed.
+
+(* ---------------------------------------------------------------- the client loop, fuel-free *)
+Lemma wire_length_ge ms : (length ms <= length (wire ms))%nat.
+Proof.
+  induction ms as [|m ms IH]; [simpl; lia|]. rewrite wire_cons, app_length, frame_length. simpl. lia.
+Qed.
+
+Lemma client_request_delivered (final : bytes -> bool) : forall pre last chunks rest,
+  Forall (fun m => nonempty m /\ sized m /\ final m = false) pre ->
+  nonempty last -> sized last -> final last = true ->
+  concat chunks = wire (pre ++ [last]) ++ rest ->
+  client_request final (feed chunks) = Some (pre ++ [last]).
+Proof.
+  intros pre last chunks rest OK NL SL FL E. unfold client_request.
+  apply (read_until_final_spec final pre _ ipc_init (feed chunks) last rest wf_init (feed_nonempty _) OK NL SL FL).
+  - simpl. rewrite feed_concat. exact E.
+  - rewrite feed_concat, E, app_length. pose proof (wire_length_ge (pre ++ [last])) as H.
+    rewrite app_length in H. simpl in H. lia.
+Qed.
+
+Lemma client_any_fragmentation_l (final : bytes -> bool) : forall pre last chunks1 chunks2 rest,
+  Forall (fun m => nonempty m /\ sized m /\ final m = false) pre ->
+  nonempty last -> sized last -> final last = true ->
+  concat chunks1 = wire (pre ++ [last]) ++ rest -> concat chunks2 = concat chunks1 ->
+  client_request final (feed chunks1) = client_request final (feed chunks2) /\
+  client_request final (feed chunks1) = Some (pre ++ [last]).
+Proof.
+  intros pre last c1 c2 rest OK NL SL FL E1 E2.
+  rewrite (client_request_delivered final pre last c1 rest OK NL SL FL E1).
+  rewrite (client_request_delivered final pre last c2 rest OK NL SL FL (eq_trans E2 E1)). auto.
+Qed.
+
+(* the peer goes away inside a frame (after any number of complete non-final frames): an error, whatever the
+   segmentation -- never a response made of what has arrived *)
+Lemma read_until_final_truncated (final : bytes -> bool) : forall pre fuel s sock p mlast,
+  wf s -> Forall nonempty sock ->
+  Forall (fun m => nonempty m /\ sized m /\ final m = false) pre ->
+  sized mlast -> strict_prefix p (encode_frame mlast) ->
+  buffer s ++ concat sock = wire pre ++ p ->
+  read_until_final final fuel s sock = None.
+Proof.
+  induction pre as [|m ms IH]; intros fuel s sock p mlast W NE OK SZ (x & X & P) E; (destruct fuel; [reflexivity|]).
+  - simpl in E.
+    destruct (read_bytes_partial sock s mlast x W SZ NE ltac:(rewrite E; exact P) X) as (s' & R).
+    cbn [read_until_final]. rewrite R. reflexivity.
+  - inversion OK as [|? ? (Hne & Hm & Hf) Hms]; subst.
+    rewrite wire_cons, <- app_assoc in E.
+    destruct (read_bytes_complete sock s m _ W Hm NE E) as (s' & sock' & R & MS & E' & NE').
+    cbn [read_until_final]. rewrite R, (is_empty_false m Hne), Hf.
+    rewrite (IH fuel s' sock' p mlast); auto.
+    + unfold wf. rewrite MS. exact I.
+    + exists x. auto.
+Qed.
+
+Lemma client_rejects_truncated_l (final : bytes -> bool) : forall pre mlast p chunks,
+  Forall (fun m => nonempty m /\ sized m /\ final m = false) pre ->
+  sized mlast -> strict_prefix p (encode_frame mlast) ->
+  concat chunks = wire pre ++ p ->
+  client_request final (feed chunks) = None.
+Proof.
+  intros pre mlast p chunks OK SZ SP E. unfold client_request.
+  apply (read_until_final_truncated final pre _ ipc_init (feed chunks) p mlast wf_init (feed_nonempty _) OK SZ SP).
+  simpl. rewrite feed_concat. exact E.
+Qed.
